@@ -107,6 +107,9 @@ class C05(Property):
         f4, c4 = self.check_command(ctx, rng)
         findings += f4
         cov.update(c4)
+        f5, c5 = self.unwritable_stdout(ctx, rng)
+        findings += f5
+        cov.update(c5)
         self._cov = cov
         return findings, cov
 
@@ -535,6 +538,22 @@ class C05(Property):
                                 cmd += ["--external-sat-solver", be, "--external-sat-solver-opt=-q"]
                             jobs.append(dict(cmd=cmd, key=(fi, prob, arg), n=n, atts=atts, t=t, sem=sem, enc=enc, be=be, cert=cert, arg=arg, path=path))
 
+        # chains of bridged semantic gadgets (skeptically accepted arguments outside the grounded extension, long searches):
+        # every argument, with and without certificate, built-in solver, default encoding
+        import props_meta
+        for bi in range(40 if tier == "quick" else 1500):
+            n, atts = props_meta.bridged_gadgets(rng)
+            if n > 12:
+                continue      # the judge is exponential
+            path = os.path.join(d, "cfgb_%d.af" % bi)
+            open(path, "w").write("p af %d\n" % n + "".join("%d %d\n" % (a + 1, b + 1) for a, b in atts))
+            prob = rng.choice(["DS-PR", "DS-PR", "DS-ID", "DS-SST", "DC-SST", "DS-STG", "DC-ID"])
+            t, sem = prob.split("-")
+            for arg in range(n):
+                for cert in (False, True):
+                    cmd = [crust, "solve", "-f", path, "-p", prob, "--logging-level", "off", "-a", str(arg + 1)] + (["-c"] if cert else [])
+                    jobs.append(dict(cmd=cmd, key=("b%d" % bi, prob, arg), n=n, atts=atts, t=t, sem=sem, enc=None, be=None, cert=cert, arg=arg, path=path))
+
         def run(job):
             try:
                 pr = subprocess.run(job["cmd"], stdout=subprocess.PIPE, stderr=subprocess.PIPE, timeout=120)
@@ -737,6 +756,40 @@ class C05(Property):
                 findings.append(Finding("model", None, "read_problem_string and its Lean model (Cli.readProblem) differ on %r: impl %s model %s" % (x, ir, mr),
                                         "cli · problem parser differs from the model", {"problem": x, "theorem": "correspondence read family fmt=prob (C05.problem_parse_iff is about Cli.readProblem)"}))
         return findings, {"problem_strings_compared": len(strs), "problem_strings_accepted": nacc}
+
+    # ---- the answer cannot be written: "exactly the right answer, or none" means a non-zero exit status then ----
+    def unwritable_stdout(self, ctx, rng):
+        runner = ctx["runner"]
+        crust = os.path.join(common.REPO_TARGET, "release", "crustabri")
+        wrap = os.path.join(common.REPO_TARGET, "release", "crustabri_iccma23")
+        inst = os.path.join(runner.dir, "unw.af")
+        open(inst, "w").write("p af 3\n1 2\n2 3\n")
+        cmds = [[wrap, "-p", "SE-PR", "-f", inst], [wrap, "-p", "DC-CO", "-a", "1", "-f", inst],
+                [crust, "solve", "--logging-level", "off", "-p", "DS-ST", "-a", "2", "-f", inst],
+                [crust, "solve", "--logging-level", "off", "-p", "SE-GR", "-f", inst, "-c"],
+                [crust, "problems", "--logging-level", "off"]]
+        findings = []
+        n = 0
+        for cmd in cmds:
+            for kind in ("closed pipe", "/dev/full"):
+                if kind == "closed pipe":
+                    r, w = os.pipe()
+                    os.close(r)
+                    out = w
+                else:
+                    out = os.open("/dev/full", os.O_WRONLY)
+                try:
+                    pr = subprocess.run(cmd, stdout=out, stderr=subprocess.PIPE, timeout=60)
+                    rc = pr.returncode
+                except subprocess.TimeoutExpired:
+                    rc = None
+                finally:
+                    os.close(out)
+                n += 1
+                if rc == 0 or rc is None:
+                    findings.append(Finding("input", None, "exit status %s although nothing could be written on stdout (%s): %s" % (rc, kind, " ".join(cmd)[-120:]),
+                                            "cli · exit status 0 with unwritable stdout (%s)" % kind, {"cmd": " ".join(cmd), "stdout": kind}))
+        return findings, {"unwritable_stdout_runs": n}
 
     # ---- `crustabri check`: exit status 0 exactly when the reader (and its Lean model) accepts the file ----
     def check_command(self, ctx, rng, n=None):
